@@ -493,3 +493,31 @@ package beacon
 //@ func (*callbackStore).runWorker(c, jobChan)
 //@   props C11
 //@   flags sequential
+
+// ---- C14: lock discipline of the remaining functions of the beacon handler that take its lock (sweep) -----------------
+//@ func (*Handler).IsServing(h) (r)
+//@   props C14
+//@   flags lockcheck
+//@   modifies nothing
+//@ func (*Handler).IsRunning(h) (r)
+//@   props C14
+//@   flags lockcheck
+//@   modifies nothing
+//@ func (*Handler).IsStopped(h) (r)
+//@   props C14
+//@   flags lockcheck
+//@   modifies nothing
+//@ func (*Handler).Stop(h, ctx)
+//@   props C14
+//@   flags lockcheck
+
+// ---- C02: the timing layer between the scheme store and the database is transparent ------------------------------------
+// discrepancyStore.Put measures and logs; what it reports is what the layer below reported: a write that failed below is
+// a failure here (otherwise the layers above advance their head over a round that is not on disk), a success here means
+// the beacon is recorded below, and nothing else in the view changes.
+//@ func (*discrepancyStore).Put(d, ctx, b) (err)
+//@   props C02
+//@   requires [wf] d.group != nil && d.clock != nil && d.l != nil && b != nil && common.validPeriod(d.group.Period) && common.validGenesis(d.group.GenesisTime)
+//@   ensures [C02:the-timing-layer-reports-success-only-when-the-write-below-succeeded] err == nil ==> stored(d.Store, b.Round) && sigOf(d.Store, b.Round) == b.Signature && prevOf(d.Store, b.Round) == b.PreviousSig
+//@   ensures [C02:a-write-that-fails-below-the-timing-layer-changes-nothing] err != nil ==> (forall r int :: stored(d.Store, r) == old(stored(d.Store, r)) && sigOf(d.Store, r) == old(sigOf(d.Store, r)) && prevOf(d.Store, r) == old(prevOf(d.Store, r)))
+//@   ensures [C02:the-timing-layer-never-replaces-or-invents-other-rounds] forall r int :: r != b.Round && stored(d.Store, r) ==> old(stored(d.Store, r)) && sigOf(d.Store, r) == old(sigOf(d.Store, r)) && prevOf(d.Store, r) == old(prevOf(d.Store, r))
